@@ -534,7 +534,7 @@ type tfun struct {
 }
 
 type progResult struct {
-	accepted map[[2]int]bool         // (function, probe) accepted by the checker
+	accepted map[[2]int]bool           // (function, probe) accepted by the checker
 	value    map[string]map[[2]int]int // engine -> (function, probe) -> produced Int
 }
 
